@@ -125,3 +125,40 @@ func GovcQRDense2()  { govcQR(2, 2, false) }
 func GovcQRDense32() { govcQR(3, 2, false) }
 func GovcQRReal2()   { govcQR(2, 2, true) }
 func GovcQRDense3()  { govcQR(3, 3, false) }
+
+// caller-supplied Q and R buffers that already hold other values
+func govcQRInSitu(n, m int) {
+  a, a0 := govcSymMat(n, m, false, false)
+  qb := NullDenseFloat64Matrix(n, m)
+  rb := NullDenseFloat64Matrix(n, m)
+  for i := 0; i < n; i++ {
+    for j := 0; j < m; j++ {
+      qb.At(i, j).SetFloat64(7.0)
+      rb.At(i, j).SetFloat64(7.0)
+    }
+  }
+  q, r, err := Run(a, InSitu{qb, rb})
+  if err != nil {
+    govcCheck("no-error", false)
+    return
+  }
+  qv, _, _ := govcGet(q)
+  rv, rn, _ := govcGet(r)
+  govcOrthonormalCols("Q'Q=I", qv, n, m)
+  for i := 0; i < rn; i++ {
+    for j := 0; j < m; j++ {
+      if j < i {
+        govcCheckEq(fmt.Sprintf("R-upper[%d,%d]", i, j), rv[i*m+j], 0.0)
+      }
+    }
+  }
+  rbk := make([]float64, m*m)
+  for i := 0; i < m; i++ {
+    for j := 0; j < m; j++ {
+      rbk[i*m+j] = rv[i*m+j]
+    }
+  }
+  govcEqMat("QR=A", govcMul(qv, n, m, rbk, m), a0, n, m)
+}
+
+func GovcQRInSitu2() { govcQRInSitu(2, 2) }
